@@ -13,6 +13,6 @@ R=$(mktemp -d /tmp/scroot-XXXX); mkdir -p $R/evidence; cp /verif/known_findings.
  [ -f /verif/harness/cmd/$c/RACE ] && [ "${SC_RACE:-0}" = 1 ] && (cd /verif/harness && go build -race -tags verif -overlay $WT/.ov.json -o $R/$c.race ./cmd/$c) && export VERIF_RACE_BIN=$R/$c.race
  VERIF_ROOT=$R VERIF_TIER=$TIER VERIF_SEED=${VERIF_SEED:-1} VERIF_CRASHAT=/verif/.bin/crashat $R/$c > $R/log 2>&1; rc=$?
  line="$C($TIER) exit=$rc $(grep -c '^VIOLATION' $R/log) violations; first: $(grep -m1 'key=' $R/log)"
- echo "$line"; echo "$line" >> $S/detection.txt
+ echo "$line"; [ "${SC_NOAPPEND:-0}" = 1 ] || echo "$line" >> $S/detection.txt
 }
 git -C /repo worktree remove --force $WT >/dev/null 2>&1; rm -rf $WT $R
